@@ -12,11 +12,12 @@ from concurrent.futures import ProcessPoolExecutor
 import lib
 import walkh
 
-FILE_POOL = ["x.cmake", "y.cmake", "Z.CMAKE", "w.CMake", "n.txt", "cmake", "d.e-f.cmake", "README", "v1.2.cmake", "k.cmake.in"]
-DIR_POOL = ["a", "b", "c", "sub", "x.d", "out-old", "outer"]
+FILE_POOL = ["x.cmake", "x-y.cmake", "x+z.cmake", "y.cmake", "Z.CMAKE", "w.CMake", "n.txt", "cmake", "d.e-f.cmake", "README", "v1.2.cmake", "k.cmake.in"]
+DIR_POOL = ["a", "ab", "b", "c", "sub", "sub2", "x.d", "out-old", "outer"]
 PATTERNS = [("a", "a", False), ("b/", "b", True), ("*.CMAKE", "*.CMAKE", False), ("**/c", "c", False), ("y.cmake", "y.cmake", False),
             ("x.cmake", "x.cmake", False), ("*.cmake", "*.cmake", False), ("sub/", "sub", True), ("n.txt", "n.txt", False), ("x.d", "x.d", False),
-            ("y.cmake/", "y.cmake", True), ("*.cmake/", "*.cmake", True), ("o*/", "o*", True)]
+            ("y.cmake/", "y.cmake", True), ("*.cmake/", "*.cmake", True), ("o*/", "o*", True),
+            ("**/b/*.cmake", "*.cmake", "in:b"), ("**/sub/x*", "x*", "in:sub")]
 
 
 def gen_tree(rng, depth=0, path=()):
@@ -135,9 +136,12 @@ def record_one(seed, sandbox):
     pats = []
     for p in chosen:
         if p[0] == "@abs":
-            pats.append({"txt": "@abs", "comp": [], "dironly": False, "abs": [True, [R(x) for x in p[1]]]})
+            pats.append({"txt": "@abs", "comp": [], "dironly": False, "abs": [True, [R(x) for x in p[1]]], "parent": ""})
+        elif isinstance(p[2], str):
+            pats.append({"txt": p[0], "comp": sorted(n for n in names if fnmatch.fnmatchcase(n, p[1])), "dironly": False, "abs": [False, []],
+                         "parent": p[2][3:]})
         else:
-            pats.append({"txt": p[0], "comp": sorted(n for n in names if fnmatch.fnmatchcase(n, p[1])), "dironly": p[2], "abs": [False, []]})
+            pats.append({"txt": p[0], "comp": sorted(n for n in names if fnmatch.fnmatchcase(n, p[1])), "dironly": p[2], "abs": [False, []], "parent": ""})
     trace = {"id": "walk-%d" % seed, "tree": [{"path": [R(x) for x in n["path"]], "dirs": [R(x) for x in n["dirs"]], "files": [R(x) for x in n["files"]]} for n in tree],
              "cfg": {"pats": pats, "recursive": recursive, "auto": auto, "sep": sep, "out": {"kind": okind, "path": [R(x) for x in opath]}},
              "events": evs, "matches": [{"path": [R(x) for x in m["path"]], "isdir": m["isdir"], "result": m["result"]} for m in matches]}
